@@ -28,6 +28,7 @@ PROBES = ["c01:exception-crossed", "c01:callable-called-remotely", "c01:depth>=4
 
 EXC = {"ValueError": ValueError, "KeyError": KeyError, "ZeroDivisionError": ZeroDivisionError, "IndexError": IndexError,
        "TypeError": TypeError, "RuntimeError": RuntimeError, "AttributeError": AttributeError, "OSError": OSError}
+KWNAMES = ("k1", "k1", "self", "args", "name", "obj", "handler", "seq", "kwargs", "cls")     # keyword names a callee may legitimately have
 IMM = [0, 1, -7, 2 ** 70, 1.5, "txt", b"by", None, True, (1, "a"), (), ((2,), None), frozenset([3]), 3 + 4j, slice(1, 5, 2), Ellipsis]
 
 
@@ -130,7 +131,11 @@ class Interp(object):
         self.stats["remote"] += 1
         return self.remote(side, node["side"], nid, xdepth + 1, args, kwargs)
 
-    def run(self, nid, xdepth, *args, **kwargs):
+    def run(it_, nid_, xdepth_, *args, **kwargs):
+        # (parameter names chosen so that no keyword the program passes - `self`, `args`, `name`, ... - can collide with them)
+        return it_._run(nid_, xdepth_, args, kwargs)
+
+    def _run(self, nid, xdepth, args, kwargs):
         node = self.prog[nid]
         side = node["side"]
         self.counts[nid] = self.counts.get(nid, 0) + 1
@@ -179,7 +184,7 @@ class Interp(object):
                     cargs.append(IMM[(sel[j + 1] + nid) % len(IMM)])
             ckw = {}
             if e["kw"] >= 1:
-                ckw["k1"] = IMM[sel[5] % len(IMM)]
+                ckw[KWNAMES[(sel[5] // len(IMM)) % len(KWNAMES)]] = IMM[sel[5] % len(IMM)]
             if e["kw"] >= 2:
                 ckw["kb"] = refs[sel[6] % len(refs)]
             child = e["to"]
@@ -280,11 +285,11 @@ def run_one(choices, params):
             holder = {}
 
             class Svc(rpyc.Service):
-                def exposed_run(self, nid, xdepth, *args, **kwargs):
+                def exposed_run(svc_, nid_, xdepth_, *args, **kwargs):
                     it = holder["it"]
-                    if nid == -1:
-                        return it.helper(xdepth, *args)
-                    return it.run(nid, xdepth, *args, **kwargs)
+                    if nid_ == -1:
+                        return it.helper(xdepth_, *args)
+                    return it.run(nid_, xdepth_, *args, **kwargs)
             ca, cb, ledger = pair.connect_pair(k, Svc(), Svc(), compress=(bool(c.draw(2)), bool(c.draw(2))), tap=bool(__import__("os").environ.get("VERIF_TRACE")))
             conns["A"], conns["B"] = ca, cb
             srv = sim.spawn(cb.serve_all, _name="B.serve_all")
